@@ -39,8 +39,62 @@ P_MUTATIONS = (("modify", 4), ("modify", 5), ("modify", 6), ("modify", 0),
                ("delete", 4), ("delete", 5))
 
 
+# load-context routing families ("tag-*"): the docs' SnippetsFileSystemLoader customisation
+T_NAMES = ("foo", "bar", "snippets/foo", "snippets/bar", "alt/foo", "alt/bar")
+T_CHANNELS = (0, 2, 3, 5)  # top-level by name / render tag / include tag / variant='alt'
+
+
 def is_ns_family(fam: str) -> bool:
     return fam.startswith("ns-")
+
+
+def is_t_family(fam: str) -> bool:
+    return fam.startswith("tag-")
+
+
+def t_route(via: int) -> str:
+    return "snippets" if via in (2, 3) else ("alt" if via == 5 else "top")
+
+
+def context_collision(a: Op, b: Op, fam: str, nskey: str) -> str | None:
+    """(tag-* families, naming only) two loads of the same name whose load context routes
+    them to different sources although the engine's cache key is the same."""
+    if not is_t_family(fam) or a.kind != "load" or b.kind != "load" or a.name != b.name:
+        return None
+    ra, rb = t_route(a.via), t_route(b.via)
+    if ra == rb:
+        return None
+    if nskey == "variant" and "alt" in (ra, rb):
+        return None  # the variant is the namespace key: distinct cache keys
+    return "kwarg-routing-subclass" if "alt" in (ra, rb) else "tag-routing-subclass"
+
+
+def tagroute_histories(length: int) -> Iterator[tuple[Op, ...]]:
+    """Every history of exactly *length* steps over {load foo/bar (canonical) by name, through
+    a render tag, through an include tag, or with variant='alt'; sync/async} and
+    {modify / delete any of the six sources}, ending in a load."""
+
+    def rec(prefix: tuple[Op, ...], used: int) -> Iterator[tuple[Op, ...]]:
+        final = len(prefix) + 1 == length
+        last = prefix[-1] if prefix else None
+        for n in range(min(used + 1, 2)):
+            for via in T_CHANNELS:
+                for mode in (0, 1):
+                    op = Op("load", n, 0, 0, mode, via)
+                    if final:
+                        yield (*prefix, op)
+                    else:
+                        yield from rec((*prefix, op), max(used, n + 1))
+        if final:
+            return
+        for kind in ("modify", "delete"):
+            for base in range(min(used + 1, 2)):
+                for src in (base, base + 2, base + 4):
+                    if last is not None and last.kind in ("modify", "delete") and last.name == src:
+                        continue
+                    yield from rec((*prefix, Op(kind, src)), max(used, base + 1))
+
+    yield from rec((), 0)
 
 
 def is_p_family(fam: str) -> bool:
@@ -49,12 +103,14 @@ def is_p_family(fam: str) -> bool:
 
 def concrete_names(fam: str) -> bool:
     """Families whose template names mean something (never renamed, always printed)."""
-    return is_ns_family(fam) or is_p_family(fam)
+    return is_ns_family(fam) or is_p_family(fam) or is_t_family(fam)
 
 
 def names_of(fam: str) -> tuple[str, ...]:
     if is_p_family(fam):
         return P_NAMES
+    if is_t_family(fam):
+        return T_NAMES
     return NS_NAMES if is_ns_family(fam) else NAMES
 
 
@@ -250,7 +306,9 @@ class Op(NamedTuple):
     g:    0 = no globals (None), 1 = globals {'who': <unique per step>}, 2 = globals {},
           3 = globals {'who': ...} and a render argument who=..., 4 = render argument only
     mode: 0 = sync, 1 = async
-    via:  0 = namespace passed as keyword argument, 1 = through a render context
+    via:  0 = namespace passed as keyword argument, 1 = through a render context,
+          2 / 3 = the load is made by a render / include tag of a parent template,
+          4 = keyword and context at once, 5 = keyword argument variant='alt' (tag-* families)
 
     For 'modify' on file-backed sources two of the fields are reused:
     g   = which mtime the new version gets (MTIME_KINDS): 0 newer than every stamp used
@@ -266,16 +324,17 @@ class Op(NamedTuple):
     g: int = 0
     mode: int = 0
     via: int = 0
+    env: int = 0  # 1: the load is made through a second Environment sharing the loader
 
     def j(self) -> list[Any]:
-        return [self.kind, self.name, self.ns, self.g, self.mode, self.via]
+        return [self.kind, self.name, self.ns, self.g, self.mode, self.via, self.env]
 
 
 MTIME_KINDS = ("newer", "older", "equal", "future", "zero", "negative")
 
 
 def op_from(j: Any) -> Op:
-    return Op(str(j[0]), *[int(x) for x in j[1:6]])
+    return Op(str(j[0]), *[int(x) for x in j[1:7]])
 
 
 def show_op(o: Op, fam: str = "") -> str:
@@ -294,9 +353,14 @@ def show_op(o: Op, fam: str = "") -> str:
         elif is_p_family(fam):
             if o.ns:
                 s += f"[globals ns={NAMESPACES[o.ns - 1]}]"
+        elif is_t_family(fam):
+            if o.via:
+                s += "[variant='alt']" if o.via == 5 else f"[via {VIA[o.via]}]"
         elif o.ns:
             s += f"[{NAMESPACES[o.ns - 1]} via {'context' if o.via else 'kwargs'}]"
         s += {0: "(no-g)", 1: "(g)", 2: "(g={})", 3: "(g+render-arg)", 4: "(render-arg)"}[o.g]
+        if o.env:
+            s += "@env2"
         return s
     if o.kind == "fail":
         return "fail-next"
@@ -527,9 +591,10 @@ def mtime_skeletons() -> Iterator[tuple[Op, ...]]:
 
 
 class Entry:
-    __slots__ = ("source", "origin", "stamp", "step")
+    __slots__ = ("source", "origin", "stamp", "step", "env")
 
-    def __init__(self, source: str, origin: str, stamp: object, step: int):
+    def __init__(self, source: str, origin: str, stamp: object, step: int, env: int = 0):
+        self.env = env  # which Environment parsed it (a template answers only for that one)
         self.source = source  # snapshot of the source text when it was loaded
         self.origin = origin  # where the uncached loader found it (file path / dict key)
         self.stamp = stamp  # freshness token of the origin at load time (mtime) or None
@@ -598,6 +663,7 @@ def expect_load(
     has_fresh: bool,
     is_fresh: Callable[[Entry], bool],
     armed: str | None,
+    env_tag: int = 0,
 ) -> list[Alt]:
     """Allowed outcomes of one load of *key*.
 
@@ -619,6 +685,17 @@ def expect_load(
         a use of that key).
     """
     e = model.get(key)
+    if e is not None and e.env != env_tag:
+        # parsed by another Environment: not an answer for this one, the source is
+        # consulted and the entry replaced (the lookup still counts as a use)
+        kind = "reload-other-env"
+        fail_commit0 = lambda: model.touch(key)  # noqa: E731
+        if armed:
+            return [Alt(("err", armed), kind + "-failed", True, fail_commit0)]
+        if now[0] == "err":
+            return [Alt(("err", now[1]), kind + "-error", False, fail_commit0)]
+        other = Entry(now[1], now[2], now[3], step, env_tag)
+        return [Alt(("ok", now[1]), kind, False, lambda: (model.put(key, other), None)[1])]
     if e is not None:
         if not (auto_reload and has_fresh):
             return [Alt(("ok", e.source), "hit", False, lambda: model.touch(key))]
@@ -627,7 +704,7 @@ def expect_load(
                 # the documented blind spot: the very file the entry came from changed its
                 # content but kept its mtime; freshness information cannot tell, so both
                 # the snapshot and the new content are accepted (counted, don't-care)
-                fresh_ent = Entry(now[1], now[2], now[3], step)
+                fresh_ent = Entry(now[1], now[2], now[3], step, env_tag)
                 alts = [
                     Alt(("ok", e.source), "hit-equal-mtime", False, lambda: model.touch(key)),
                     Alt(("ok", now[1]), "reload-equal-mtime", False,
@@ -642,7 +719,7 @@ def expect_load(
                 # the twin now answers from somewhere else (a file that shadows the entry's
                 # origin): a loader that returns this answer has re-read the source, so the
                 # entry it holds from now on is the new one (origin and stamp included)
-                moved = Entry(now[1], now[2], now[3], step)
+                moved = Entry(now[1], now[2], now[3], step, env_tag)
                 alts = [Alt(out, "hit-verified", False,
                             lambda: (model.put(key, moved), None)[1])]
             else:
@@ -659,7 +736,7 @@ def expect_load(
         return [Alt(("err", armed), kind + "-failed", True, fail_commit)]
     if now[0] == "err":
         return [Alt(("err", now[1]), kind + "-error", False, fail_commit)]
-    ent = Entry(now[1], now[2], now[3], step)
+    ent = Entry(now[1], now[2], now[3], step, env_tag)
 
     def commit() -> None:
         if model.put(key, ent) is not None:
@@ -699,6 +776,8 @@ def pattern(ops: list[Op], category: str, fam: str = "") -> str:
             nm = " " + NS_NAMES[o.name]
         elif pfam:
             nm = " " + P_NAMES[o.name]
+        elif is_t_family(fam):
+            nm = " " + T_NAMES[o.name]
         else:
             nm = " " + "xyz"[names.index(o.name)] if multi_n else ""
         if o.kind != "load":
@@ -715,8 +794,13 @@ def pattern(ops: list[Op], category: str, fam: str = "") -> str:
                 s += f"[ns={NS_VALUES[o.ns - 1]!r}" + (f" via {VIA[o.via]}" if o.via else "") + "]"
             elif o.via:
                 s += f"[via {VIA[o.via]}]"
+        elif is_t_family(fam):
+            if o.via:
+                s += "[variant='alt']" if o.via == 5 else f"[via {VIA[o.via]}]"
         elif o.ns:
             s += f"[n{nss.index(o.ns) + 1}]" if multi_ns else "[ns]"
+        if o.env:
+            s += "@env2"
         if o.g == 1:
             s += "" if pfam else "(g)"
         elif o.g == 3:
@@ -779,6 +863,8 @@ def simplifications(ops: list[Op], fam: str = "") -> Iterator[list[Op]]:
                 yield [*ops[:i], o._replace(g=1), *ops[i + 1 :]]
         if o.kind != "load":
             continue
+        if o.env:
+            yield [*ops[:i], o._replace(env=0), *ops[i + 1 :]]
         if o.mode:
             yield [*ops[:i], o._replace(mode=0), *ops[i + 1 :]]
         if o.ns:
